@@ -240,7 +240,7 @@ theorem step_basic (cfg : Cfg) (c : Nat) (op : SOp α) (w : World α) (xs : List
   | append vs =>
     show match (appendRangeFwd cfg c true (vs.map Src.ext) >>= fun _ => pure ()) w with | .ok _ w' => _ | .thrown _ w' => _
     rw [run_discard]
-    have hs := appendRangeFwd_sat cfg c true _ w hp.vec hp.led hp.nmax (argsOK_ext cfg w c vs) (fun _ => hpol)
+    have hs := appendRangeFwd_sat cfg c true _ w hp.vec hp.led hp.nmax ((argsOK_ext cfg w c vs).srcs hp.vec hp.led) (fun _ => hpol)
     cases hr : appendRangeFwd cfg c true (vs.map Src.ext) w with
     | ok r w' =>
       rw [hr] at hs
